@@ -23,6 +23,24 @@ def _through_job(job):
     return out
 
 
+def _multi_job(job):
+    """glycan = parent with several children; balance against the residues converted alone"""
+    import chem
+    import real
+    g, parent, children = job
+    out = {"g": None, "parts": []}
+    for k, x in [("g", g), ("p", parent)] + [("c", c) for c in children]:
+        kind, smi = real.smiles_of(x)
+        m = chem.mol(smi) if kind == "ok" and smi else None
+        v = None if m is None else (chem.atom_counts(m), chem.ring_count(m), smi)
+        if k == "g":
+            out["g"] = v
+            out["kind"] = kind
+        else:
+            out["parts"].append(v)
+    return out
+
+
 def run(rep, tier, driver):
     rng = random.Random(seed() * 7 + 5)
     vocab = gen.Vocab()
@@ -103,6 +121,42 @@ def run(rep, tier, driver):
         if o["g"][0] != want or o["g"][1] != rings:
             rep.violation("input", {"iupac": g, "parent": pname, "child": child}, {"atoms": o["g"][0], "rings": o["g"][1], "smiles": o["g"][2]},
                           {"atoms": want, "rings": rings, "residues": 2}, key="balance:" + g)
+    # two (three) residues written onto ONE position of the parent: a phosphodiester / glycerol bridge offers two free ends - both
+    # residues are condensed, each costing one water - a plain hydroxyl offers one: no molecule. Whatever is returned must balance.
+    mj = []
+    for sgr in (["Glc", "Man", "GlcNAc"] if tier == "quick" else ["Glc", "Man", "Gal", "GlcNAc", "GlcN", "Xyl"]):
+        for pos, sub in [(6, "P"), (3, "P"), (2, "P"), (3, "Gro"), (6, "Gro"), (4, ""), (6, ""), (3, "S"), (6, "PEtn"), (4, "P")]:
+            if sgr == "Xyl" and pos == 6:
+                continue
+            if sgr in ("GlcNAc", "GlcN") and pos == 2:
+                continue
+            pname = "%s%d%s" % (sgr, pos, sub) if sub else sgr
+            mj.append(("Gal(b1-%d)[Man(a1-%d)]%s" % (pos, pos, pname), pname, ["Gal", "Man"]))
+            mj.append(("Man(a1-%d)[Gal(b1-%d)]%s" % (pos, pos, pname), pname, ["Man", "Gal"]))
+            mj.append(("Glc(a1-%d)[Gal(b1-%d)]%s(a1-3)Man" % (pos, pos, pname), None, None))
+    mj = [j for j in mj if j[1] is not None]
+    mouts = pmap(_multi_job, mj, chunk=4)
+    for (g, pname, children), o in zip(mj, mouts):
+        rep.count("two-residues-on-one-position")
+        conv = o["g"] is not None
+        rep.case(canon=g, nontrivial=conv)
+        if not conv:
+            rep.count("two-residues-on-one-position-no-molecule")
+            continue
+        if any(p is None for p in o["parts"]):
+            continue
+        want = {}
+        for p in o["parts"]:
+            for k, v in p[0].items():
+                want[k] = want.get(k, 0) + v
+        nl = len(o["parts"]) - 1
+        want["H"] = want.get("H", 0) - 2 * nl
+        want["O"] = want.get("O", 0) - nl
+        want = {k: v for k, v in want.items() if v}
+        rings = sum(p[1] for p in o["parts"])
+        if o["g"][0] != want or o["g"][1] != rings:
+            rep.violation("input", {"iupac": g, "parent": pname, "children": children}, {"atoms": o["g"][0], "rings": o["g"][1], "smiles": o["g"][2]},
+                          {"atoms": want, "rings": rings, "residues": len(o["parts"])}, key="balance:" + g)
     # linkages through substituents exercise __check_root_id's walk to the free end: Model against code
     import oxyx
     oxyx.run(rep, tier, driver, [g for (g, _, _), o in zip(tj, touts) if o["g"] is not None])
